@@ -50,11 +50,12 @@ type sample struct {
 }
 
 type event struct {
-	K   string  // start ret begin end wstart wend addcall addret close stopcall stopret quicall quiret obs
-	ID  int     // task / worker / closer / call number
-	Sem int     // start: semaphore index or -1
-	Ret string  // ret: nil unavailable throttled canceled
-	Smp *sample `json:",omitempty"`
+	K    string  // start ret begin end wstart wend addcall addret close stopcall stopret quicall quiret obs
+	ID   int     // task / worker / closer / call number
+	Sem  int     // start: semaphore index or -1
+	Ret  string  // ret: nil unavailable throttled canceled
+	Upto int     `json:",omitempty"` // idle: number of events logged before NumTasks() returned 0
+	Smp  *sample `json:",omitempty"`
 }
 
 type evlog struct {
@@ -112,6 +113,47 @@ func (l *evlog) panics() []string {
 	return append([]string(nil), l.pan...)
 }
 
+// bodyPanic is what a task or worker body of the harness panics with.
+type bodyPanic struct{ id int }
+
+// newStopper builds the Stopper with an OnPanic handler, so that a panicking
+// body is recovered by s.Recover and the Stopper lives on.  Anything else
+// the handler is given is a panic of the Stopper itself and is recorded.
+func newStopper(l *evlog) *stop.Stopper {
+	s := stop.NewStopper(stop.OnPanic(func(v interface{}) {
+		if _, ok := v.(bodyPanic); ok {
+			return
+		}
+		l.mu.Lock()
+		l.pan = append(l.pan, fmt.Sprintf("recovered by the Stopper's handler: %v", v))
+		l.mu.Unlock()
+	}))
+	l.s = s
+	return s
+}
+
+// idle probes NumTasks(): if it is 0, an "idle" event says so, together with
+// how many events had been logged before the call (those had happened
+// before the moment NumTasks was 0) and a sample taken afterwards.
+func (l *evlog) idle() {
+	l.mu.Lock()
+	upto := len(l.evs)
+	l.mu.Unlock()
+	if l.s.NumTasks() != 0 {
+		return
+	}
+	l.mu.Lock()
+	sm := &sample{}
+	sm.D = closed(l.s.IsStopped())
+	sm.S = closed(l.s.ShouldStop())
+	sm.Q = closed(l.s.ShouldQuiesce())
+	for _, c := range l.sems {
+		sm.Lens = append(sm.Lens, len(c))
+	}
+	l.evs = append(l.evs, event{K: "idle", Sem: -1, Upto: upto, Smp: sm})
+	l.mu.Unlock()
+}
+
 func (l *evlog) snapshot() []event {
 	l.mu.Lock()
 	defer l.mu.Unlock()
@@ -148,7 +190,7 @@ func (c *closerT) Close() {
 // ---------------------------------------------------------------- operations
 
 type hop struct {
-	K    string // task limited release worker wrelease addcloser withcancel cancelfn stop quiesce
+	K    string // task limited release panic worker wrelease wpanic addcloser withcancel cancelfn stop quiesce
 	N    int    // task / worker / ctx index, or semaphore index for limited
 	B    bool   // task: async; limited: wait; withcancel: on quiesce
 	Ctx  int    // limited: context index or -1
@@ -167,10 +209,14 @@ func (o hop) coq() string {
 		return fmt.Sprintf("HLimited %d %s %s", o.N, vh.Bool(o.B), c)
 	case "release":
 		return fmt.Sprintf("HRelease %d", o.N)
+	case "panic":
+		return fmt.Sprintf("HPanic %d", o.N)
 	case "worker":
 		return "HWorker"
 	case "wrelease":
 		return fmt.Sprintf("HWRelease %d", o.N)
+	case "wpanic":
+		return fmt.Sprintf("HWPanic %d", o.N)
 	case "addcloser":
 		return "HAddCloser"
 	case "withcancel":
@@ -289,6 +335,8 @@ func (e event) coq() string {
 		return fmt.Sprintf("EQuiRet %d %s", e.ID, smpCoq(e.Smp))
 	case "obs":
 		return "EObs " + smpCoq(e.Smp)
+	case "idle":
+		return fmt.Sprintf("EIdle %d %s", e.Upto, smpCoq(e.Smp))
 	}
 	panic("bad event " + e.K)
 }
@@ -422,7 +470,9 @@ func (t *twin) apply(o hop) {
 		k := &twTask{limited: true, sem: o.N, ctx: o.Ctx}
 		t.tryLimited(k, true, o.B)
 		t.tasks = append(t.tasks, k)
-	case "release":
+	case "release", "panic":
+		// a panicking body takes the same deferred path: <-sem, runPostlude,
+		// Recover (handler); RunTask then returns nil
 		k := t.tasks[o.N]
 		k.state, k.ret = "done", "nil"
 		if k.limited {
@@ -432,7 +482,7 @@ func (t *twin) apply(o hop) {
 	case "worker":
 		t.workers = append(t.workers, true)
 		t.wg++
-	case "wrelease":
+	case "wrelease", "wpanic":
 		t.workers[o.N] = false
 		t.wg--
 	case "addcloser":
@@ -581,6 +631,7 @@ func eqObs(a, b obs, ambig []bool) bool {
 
 type taskRec struct {
 	release chan struct{}
+	panics  int32 // set before release is closed: the body panics instead of returning
 	begun   int32
 	ret     atomic.Value
 }
@@ -595,6 +646,7 @@ type ctl struct {
 	l       *evlog
 	tasks   []*taskRec
 	wrel    []chan struct{}
+	wpanic  []*int32
 	closers []*closerT
 	ctxs    []ctxRec
 	calls   []*int32
@@ -671,6 +723,9 @@ func (c *ctl) body(i int, t *taskRec) func(context.Context) {
 		c.l.add("begin", i, -1, "", true)
 		<-t.release
 		c.l.add("end", i, -1, "", true)
+		if atomic.LoadInt32(&t.panics) != 0 {
+			panic(bodyPanic{i})
+		}
 	}
 }
 
@@ -712,16 +767,27 @@ func (c *ctl) do(o hop) {
 		}()
 	case "release":
 		close(c.tasks[o.N].release)
+	case "panic":
+		atomic.StoreInt32(&c.tasks[o.N].panics, 1)
+		close(c.tasks[o.N].release)
 	case "worker":
 		w := len(c.wrel)
 		rel := make(chan struct{})
+		pf := new(int32)
 		c.wrel = append(c.wrel, rel)
+		c.wpanic = append(c.wpanic, pf)
 		c.s.RunWorker(bg, func(context.Context) {
 			<-rel
 			c.l.add("wend", w, -1, "", true)
+			if atomic.LoadInt32(pf) != 0 {
+				panic(bodyPanic{w})
+			}
 		})
 		c.l.add("wstart", w, -1, "", true)
 	case "wrelease":
+		close(c.wrel[o.N])
+	case "wpanic":
+		atomic.StoreInt32(c.wpanic[o.N], 1)
 		close(c.wrel[o.N])
 	case "addcloser":
 		cl := &closerT{id: len(c.closers), l: c.l}
@@ -816,6 +882,9 @@ func genOps(rng *rand.Rand, caps []int, maxLen int) ([]hop, bool) {
 				continue
 			}
 			o = hop{K: "release", N: run[rng.Intn(len(run))]}
+			if rng.Intn(4) == 0 {
+				o.K = "panic"
+			}
 		case r < 64:
 			o = hop{K: "worker"}
 		case r < 72:
@@ -824,6 +893,9 @@ func genOps(rng *rand.Rand, caps []int, maxLen int) ([]hop, bool) {
 				continue
 			}
 			o = hop{K: "wrelease", N: lw[rng.Intn(len(lw))]}
+			if rng.Intn(5) == 0 {
+				o.K = "wpanic"
+			}
 		case r < 80:
 			o = hop{K: "addcloser"}
 		case r < 87:
@@ -869,6 +941,12 @@ func genOps(rng *rand.Rand, caps []int, maxLen int) ([]hop, bool) {
 			break
 		}
 		o := cand[rng.Intn(len(cand))]
+		if o.K == "release" && rng.Intn(5) == 0 {
+			o.K = "panic"
+		}
+		if o.K == "wrelease" && rng.Intn(6) == 0 {
+			o.K = "wpanic"
+		}
 		if o.K == "stop" && (len(tw.runningTasks()) > 0 || len(tw.liveWorkers()) > 0 || tw.anyWaiter()) {
 			racing = true
 		}
@@ -887,12 +965,13 @@ var caseTimeout = int64(120 * time.Second)
 func runCtl(caps []int, ops []hop) ctlCase {
 	var mu sync.Mutex
 	res := ctlCase{Caps: caps}
-	s := stop.NewStopper()
-	c := &ctl{s: s}
+	c := &ctl{}
 	for _, n := range caps {
 		c.sems = append(c.sems, make(chan struct{}, n))
 	}
-	c.l = &evlog{s: s, sems: c.sems}
+	c.l = &evlog{sems: c.sems}
+	s := newStopper(c.l)
+	c.s = s
 	done := make(chan struct{})
 	go func() {
 		defer close(done)
@@ -905,6 +984,7 @@ func runCtl(caps []int, ops []hop) ctlCase {
 			tw.apply(o)
 			exp, ambig := tw.expected()
 			ob := c.settle(exp, ambig)
+			c.l.idle()
 			mu.Lock()
 			res.Ops = append(res.Ops, o.coq())
 			res.OpsJ = append(res.OpsJ, o)
@@ -974,12 +1054,12 @@ var hangTimeout = int64(60 * time.Second)
 func runFree(seed int64) freeCase {
 	rng := rand.New(rand.NewSource(seed))
 	caps := []int{1 + rng.Intn(2), 1 + rng.Intn(3)}
-	s := stop.NewStopper()
 	var sems []chan struct{}
 	for _, n := range caps {
 		sems = append(sems, make(chan struct{}, n))
 	}
-	l := &evlog{s: s, sems: sems}
+	l := &evlog{sems: sems}
+	s := newStopper(l)
 	var taskID, workerID, closerID, callID int32
 	var wg sync.WaitGroup // every goroutine the harness itself starts
 	bg := context.Background()
@@ -995,6 +1075,7 @@ func runFree(seed int64) freeCase {
 		if r.Intn(5) == 0 {
 			wr = rand.New(rand.NewSource(r.Int63()))
 		}
+		panics := r.Intn(7) == 0
 		return func(context.Context) {
 			l.add("begin", i, -1, "", true)
 			if wr != nil {
@@ -1014,12 +1095,16 @@ func runFree(seed int64) freeCase {
 				time.Sleep(d / 4)
 			}
 			l.add("end", i, -1, "", true)
+			if panics {
+				panic(bodyPanic{i})
+			}
 		}
 	}
 	spawnWorker = func(r *rand.Rand, depth int) {
 		w := int(atomic.AddInt32(&workerID, 1)) - 1
 		mode, d := r.Intn(3), time.Duration(r.Intn(200))*time.Microsecond
 		child := depth < 2 && r.Intn(4) == 0
+		wpanics := r.Intn(8) == 0
 		cr := rand.New(rand.NewSource(r.Int63()))
 		s.RunWorker(bg, func(context.Context) {
 			switch mode {
@@ -1035,6 +1120,9 @@ func runFree(seed int64) freeCase {
 				spawnWorker(cr, depth+1)
 			}
 			l.add("wend", w, -1, "", true)
+			if wpanics {
+				panic(bodyPanic{w})
+			}
 		})
 		l.add("wstart", w, -1, "", true)
 	}
@@ -1116,7 +1204,11 @@ func runFree(seed int64) freeCase {
 		defer wg.Done()
 		for k := 0; k < 30; k++ {
 			time.Sleep(time.Duration(r.Intn(120)) * time.Microsecond)
-			l.add("obs", 0, -1, "", true)
+			if k%2 == 0 {
+				l.add("obs", 0, -1, "", true)
+			} else {
+				l.idle()
+			}
 		}
 	}(rand.New(rand.NewSource(rng.Int63())))
 	// the stoppers
@@ -1156,6 +1248,9 @@ func runFree(seed int64) freeCase {
 		for s.NumTasks() != 0 && time.Now().Before(deadline) {
 			time.Sleep(50 * time.Microsecond)
 		}
+	}
+	if !res.Hang {
+		l.idle()
 	}
 	l.add("obs", 0, -1, "", true)
 	res.Events = l.snapshot()
@@ -1252,7 +1347,11 @@ func main() {
 			}
 			nev += len(c.Events)
 			cases = append(cases, c)
-			items = append(items, fmt.Sprintf("(%d, %s)", c.NSems, eventsCoq(c.Events)))
+			var cs []string
+			for _, n := range c.Caps {
+				cs = append(cs, fmt.Sprintf("%d", n))
+			}
+			items = append(items, fmt.Sprintf("(%s, %s)", vh.List(cs), eventsCoq(c.Events)))
 			if len(c.Events) >= 20 {
 				distinct[eventsCoq(c.Events)] = true
 			}
